@@ -297,11 +297,13 @@ DialOK(d, p) ==
 \* r * f, f in [1.1, 1.5], truncated, capped at MaxT; r itself when MaxT = 0.
 GrowOK(d, r, r2) ==
   IF MaxT(d) = 0 THEN r2 = r
-  ELSE \/ /\ r2 <= MaxT(d)
-          /\ 10 * r2 >= 11 * r - 10      \* allow truncation of r*f
-          /\ 10 * r2 <= 15 * r
+  ELSE \* delays are observed truncated to the time unit (microseconds): r and r2 each hide a
+       \* fraction of a unit, so both bounds get one unit of slack
+       \/ /\ r2 <= MaxT(d)
+          /\ 10 * r2 >= 11 * r - 10
+          /\ 10 * r2 <= 15 * r + 15
        \/ /\ r2 = MaxT(d)
-          /\ 15 * r >= 10 * MaxT(d)      \* r*f could exceed the cap
+          /\ 15 * r + 15 >= 10 * MaxT(d)      \* r*f could exceed the cap
 
 \* transport Dial failed (not with ErrClosed): second lock region of dial()
 DialFail(d, r2) ==
